@@ -340,22 +340,39 @@ func runC04(c *Ctx) {
 		}
 	})
 
-	// (e) long streams
-	for i, sz := range []int{1 << 20, c.Q(1<<20+13, 8<<20+77)} {
+	// (e) long streams: the bit-length trailer bytes are only exercised by long inputs
+	//     (>= 2 MiB touches length>>24, >= 512 MiB touches length>>32); fed incrementally to gmsm and to the streaming reference
+	sizes := []int{1<<20 + 13, 2<<20 + 5, 9<<20 + 77}
+	if c.Thorough {
+		sizes = append(sizes, 64<<20+1, 520<<20+3)
+	}
+	Par(len(sizes), func(i int) {
+		sz := sizes[i]
 		r := c.Rng(fmt.Sprintf("stream%d", i))
-		data := r.Bytes(sz)
-		h := sm3.New()
-		for off := 0; off < len(data); {
-			n := 1 + r.Intn(70000)
-			if off+n > len(data) {
-				n = len(data) - off
+		h, rh := sm3.New(), ref.NewSM3Stream()
+		buf := make([]byte, 1<<16)
+		for off := 0; off < sz; {
+			n := 1 + r.Intn(len(buf))
+			if off+n > sz {
+				n = sz - off
 			}
-			h.Write(data[off : off+n])
+			r.Fill(buf[:n])
+			h.Write(buf[:n])
+			rh.Write(buf[:n])
 			off += n
 		}
-		if g, w := h.Sum(nil), ref.SM3(data); !bytes.Equal(g, w) {
-			rep.Violation("C04/Hash.Write/long-stream-mismatch", fmt.Sprintf("size=%d got %x want %x", sz, g, w), map[string]interface{}{"size": sz, "seedstream": i})
+		if g, w := h.Sum(nil), rh.Sum(nil); !bytes.Equal(g, w) {
+			rep.Violation(fmt.Sprintf("C04/Hash.Write/long-stream-mismatch/bitlen>=2^%d", bitsLen(uint64(sz)*8)-1), fmt.Sprintf("size=%d got %x want %x", sz, g, w), map[string]interface{}{"size": sz, "seedstream": i})
 		}
 		rep.Eval(fmt.Sprintf("stream/%dMiB", sz>>20))
+	})
+	rep.Note("bit-length trailer bytes above length>>32 (inputs >= 128 GiB) are out of reach")
+}
+
+func bitsLen(v uint64) int {
+	n := 0
+	for ; v > 0; v >>= 1 {
+		n++
 	}
+	return n
 }
